@@ -33,11 +33,17 @@ type Fault struct {
 // Config fully determines a simulated execution (together with the code).
 type Config struct {
 	Seed     uint64 `json:"seed"`     // PRNG for strategy decisions and aux choices (select order)
-	Strategy string `json:"strategy"` // random | pct | nonpreemptive | starve | rr
-	MeanGap  int    `json:"mean_gap,omitempty"`
-	PCTDepth int    `json:"pct_depth,omitempty"`
-	PCTLen   int64  `json:"pct_len,omitempty"` // estimated run length in ticks for change points
-	Victim   int32  `json:"victim,omitempty"`
+	Strategy string `json:"strategy"` // random | pct | nonpreemptive | starve | rr | sync
+	// SyncProb: strategy sync preempts in front of a lock acquisition with probability 1/SyncProb
+	// and nowhere else (the classic place for check-then-act and lock-discipline defects)
+	SyncProb int `json:"sync_prob,omitempty"`
+	// PCTSync: strategy pct places its priority change points at lock acquisitions (the n-th
+	// one of the run, n drawn below PCTLen) instead of at ticks
+	PCTSync  bool  `json:"pct_sync,omitempty"`
+	MeanGap  int   `json:"mean_gap,omitempty"`
+	PCTDepth int   `json:"pct_depth,omitempty"`
+	PCTLen   int64 `json:"pct_len,omitempty"` // estimated run length in ticks for change points
+	Victim   int32 `json:"victim,omitempty"`
 	// Replay, when Replaying is set, is followed instead of Strategy.
 	Replaying bool       `json:"replaying,omitempty"`
 	Replay    []Decision `json:"replay,omitempty"`
@@ -93,6 +99,7 @@ type Result struct {
 	Outcome         string         `json:"outcome"` // ok | deadlock | steplimit | gopanic
 	Ticks           int64          `json:"ticks"`
 	Switches        int64          `json:"switches"`
+	LockPoints      int64          `json:"lock_points"`
 	Decisions       []Decision     `json:"decisions"`
 	Tasks           int            `json:"tasks"`
 	LabelHash       uint64         `json:"label_hash"`
@@ -125,6 +132,11 @@ type Sched struct {
 	// owned by the token holder (and by the scheduler while everything is quiescent)
 	ticks           int64
 	countdown       int64
+	syncN           uint64
+	others          int // parked or new tasks other than the running one, as of the last decision or spawn
+	pctSync         bool
+	syncCount       int64
+	syncState       uint64
 	lhash           uint64
 	lockWaits       int64
 	selects         int64
@@ -198,6 +210,10 @@ func NewSched(cfg Config) *Sched {
 		gen:        genCounter.Add(1),
 	}
 	s.nextQuant = cfg.QuantumTicks
+	if cfg.Strategy == "sync" && !cfg.Replaying {
+		s.syncN = uint64(max(cfg.SyncProb, 1))
+		s.syncState = splitmix(cfg.Seed ^ 0x5eed5eed)
+	}
 	sort.SliceStable(s.cfg.Faults, func(i, j int) bool { return s.cfg.Faults[i].Tick < s.cfg.Faults[j].Tick })
 	if cfg.Strategy == "pct" && !cfg.Replaying {
 		d := cfg.PCTDepth
@@ -212,6 +228,7 @@ func NewSched(cfg Config) *Sched {
 			s.pctPoints = append(s.pctPoints, 1+int64(s.rand()%uint64(l)))
 		}
 		sort.Slice(s.pctPoints, func(i, j int) bool { return s.pctPoints[i] < s.pctPoints[j] })
+		s.pctSync = cfg.PCTSync
 	}
 	return s
 }
@@ -257,6 +274,7 @@ func (s *Sched) spawn(label int32) int32 {
 		t.prio = int64(s.rand()>>2) + 1_000_000
 	}
 	s.tasks = append(s.tasks, t)
+	s.others++
 	s.mu.Unlock()
 	if s.cfg.Strategy == "pct" && !s.cfg.Replaying && s.countdown > 2 {
 		s.countdown = 2
@@ -403,7 +421,7 @@ func (s *Sched) stateHash() uint64 {
 
 func (s *Sched) result(outcome string) Result {
 	r := Result{
-		Outcome: outcome, Ticks: s.ticks, Switches: s.switches, Decisions: s.decisions,
+		Outcome: outcome, Ticks: s.ticks, Switches: s.switches, LockPoints: s.syncCount, Decisions: s.decisions,
 		Tasks: len(s.tasks), LabelHash: s.lhash, TraceHash: s.thash,
 		FakeNs:    int64(time.Since(s.t0)),
 		LockWaits: s.lockWaits, RealBlocks: s.realBlocks, Uninstr: s.uninstr,
@@ -642,6 +660,12 @@ func (s *Sched) run() Result {
 		if s.cfg.StateHook != nil {
 			s.cfg.StateHook(s.stateHash())
 		}
+		s.others = 0
+		for _, t := range s.tasks {
+			if t != pick && (t.state == stParked || t.state == stNew) {
+				s.others++
+			}
+		}
 		pick.state = stRunning
 		pick.enabled = nil
 		s.cur = pick
@@ -649,6 +673,35 @@ func (s *Sched) run() Result {
 		s.mu.Unlock()
 		pick.gate <- struct{}{}
 	}
+}
+
+// syncPoint is asked by the lock hooks: should the running task be preempted here
+// although its time slice has not run out? Only strategy sync says yes, from its own
+// stream, so that the streams of the other choices do not depend on it.
+func (s *Sched) syncPoint() bool {
+	if s.others == 0 {
+		// nobody else could run at the last scheduling decision and nothing was spawned
+		// since: a preemption here would change nothing (this is what keeps the change
+		// points out of long sequential phases)
+		return false
+	}
+	s.syncCount++
+	if s.pctSync {
+		if s.pctPos < len(s.pctPoints) && s.pctPoints[s.pctPos] <= s.syncCount {
+			s.pctPos++
+			if s.cur != nil {
+				s.pctLow++
+				s.cur.prio = 1_000_000 - s.pctLow
+			}
+			return true
+		}
+		return false
+	}
+	if s.syncN == 0 {
+		return false
+	}
+	s.syncState = splitmix(s.syncState)
+	return s.syncState%s.syncN == 0
 }
 
 func (s *Sched) geometric(mean int) int64 {
@@ -666,6 +719,8 @@ func (s *Sched) choose(ready []*task, def *task) (*task, int64) {
 		if def == s.cur && s.cur != nil {
 			return def, 1 << 60
 		}
+		return ready[s.rand()%uint64(len(ready))], 1 << 60
+	case "sync":
 		return ready[s.rand()%uint64(len(ready))], 1 << 60
 	case "rr":
 		pick := ready[0]
@@ -690,7 +745,7 @@ func (s *Sched) choose(ready []*task, def *task) (*task, int64) {
 		}
 		return cand[s.rand()%uint64(len(cand))], s.geometric(s.cfg.MeanGap)
 	case "pct":
-		for s.pctPos < len(s.pctPoints) && s.pctPoints[s.pctPos] <= s.ticks {
+		for !s.pctSync && s.pctPos < len(s.pctPoints) && s.pctPoints[s.pctPos] <= s.ticks {
 			s.pctPos++
 			if s.cur != nil {
 				s.pctLow++
@@ -704,7 +759,7 @@ func (s *Sched) choose(ready []*task, def *task) (*task, int64) {
 			}
 		}
 		var gap int64 = 1 << 60
-		if s.pctPos < len(s.pctPoints) {
+		if !s.pctSync && s.pctPos < len(s.pctPoints) {
 			gap = s.pctPoints[s.pctPos] - s.ticks
 		}
 		return pick, gap
